@@ -216,6 +216,12 @@ class Indexable:
     def __gt__(self, o):
         return self.n > getattr(o, 'n', o)
 
+    def __le__(self, o):
+        return self.n <= getattr(o, 'n', o)
+
+    def __ge__(self, o):
+        return self.n >= getattr(o, 'n', o)
+
     def __eq__(self, o):
         return self.n == getattr(o, 'n', o)
 
